@@ -533,7 +533,7 @@ func (x *Interp) signal(fr *frame, st *Stmt) {
 	site := ""
 	if class != "nonfatal" {
 		site = fmt.Sprintf("%d/%s@%s", st.Site%numSites, st.Kind, harnessStack())
-		if (st.Site%numSites == 4 && st.Kind == "panicString") || (st.Site%numSites == 5 && st.Kind == "panicError") {
+		if (st.Site%numSites == 4 && st.Kind == "panicString") || (st.Site%numSites == 5 && st.Kind == "panicError") || (st.Site%numSites == 3 && st.Kind == "Fatalf") {
 			site += fmt.Sprintf("line%d", (st.Site/numSites)%2) // two raising lines inside one closure
 		}
 	}
@@ -606,8 +606,20 @@ func site1(t *rapid.T, kind, msg string, n int) { doSignal(t, kind, msg, n) }
 //go:noinline
 func site2(t *rapid.T, kind, msg string, n int) { doSignal(t, kind, msg, n) }
 
+// site3 is an assertion helper that says so (t.Helper()) and checks two things: two failure sites at different
+// lines of one function that is called from one line of the property.
+//
 //go:noinline
-func site3(t *rapid.T, kind, msg string, n int) { doSignal(t, kind, msg, n) }
+func site3(t *rapid.T, kind, msg string, n int) {
+	t.Helper()
+	if kind == "Fatalf" && (n/numSites)%2 == 0 {
+		t.Fatalf("%s", msg)
+	}
+	if kind == "Fatalf" {
+		t.Fatalf("%s", msg)
+	}
+	doSignal(t, kind, msg, n)
+}
 
 // runAction and maybeValue are failure sites whose names (and whose first closure) collide with internal
 // function names of the library: a user is free to call a helper like that, and two failures raised at different
